@@ -164,7 +164,7 @@ const balRule = "balancer.Pool objects built directly: 2-8 assets, reserves log-
 
 func TestPropBalancer(t *testing.T) {
 	ctx := testCtx()
-	drv.Check(t, drv.Cfg{Name: "balancer-math", Rule: balRule, Quick: 2500, Thorough: 120000}, func(rt *rapid.T, c *drv.Case) {
+	drv.Check(t, drv.Cfg{Name: "balancer-math", Rule: balRule, Quick: 2500, Thorough: 80000}, func(rt *rapid.T, c *drv.Case) {
 		b := newBalancer(rt)
 		W := func() F { return fi(b.p.GetTotalWeight().BigInt()) }
 		var hist []string
